@@ -12,6 +12,22 @@ CLAIMED = {
          "exploration",
          "An accepted honest transcript is re-delivered with exactly one statement fault at every position of check / batch_check / check_combinations; the verifier must not accept. Positions are enumerated inside a session, sessions are sampled.",
          "3.2", "claims are made false by construction and checked against the reference model before the fault is scheduled; 128-bit challenges"),
+ "C06": ("deterministic session simulation of open_combinations/check_combinations with LC-statement faults on the verifier's view (claimed LC value, coefficient, constant, dropped term, transmitted evaluations perturbed with LC sums held fixed) and degree-bound-policy requests; safety + liveness oracles against the reference model",
+         "exploration",
+         "Honest combination proofs (arbitrary coefficients incl. 0/-1, repeated labels, constants, several LCs per point, point labels sharing a value, permuted LC lists on both sides) must be accepted; every tampered statement that contains a false claim must not be; LCs mixing a degree-bounded polynomial with other terms must be refused on both sides.",
+         "3.6", "a tampered statement only counts when the reference model says it contains a false claim"),
+ "C11": ("history simulation on a traced Fiat-Shamir sponge: sequences of up to 6 open/batch/LC operations on one shared sponge with crash-restart of either party, lock-step invariants after every prefix, and proofs re-delivered at other positions / against diverged or stale sponge states",
+         "exploration",
+         "After every prefix of the history the check accepts and prover and verifier sponges are byte-identical (state, mode, trace shape, next squeeze); a claim verified against any other transcript state (moved, stale snapshot, dropped/altered/duplicated prior absorb) is not accepted unless all its polynomials are constant.",
+         "3.9", "PoseidonSponge public state compared directly; constant-polynomial exemption decided by the reference model (two-point test)"),
+ "C12": ("I/O fault injection on every serializable artefact of simulated sessions through faulty Read/Write endpoints: short reads/writes, EINTR, disk error at byte k and EOF at byte k enumerated over every offset of artefacts <= 4 KiB (sampled offsets above), x compress x validate; decision equality after reload",
+         "fault_enumeration",
+         "Per artefact the crash-point space (write error at offset k, truncation at offset k) is enumerated exhaustively for encodings <= 4 KiB; serialize must return Err with a prefix written, deserialize of a proper prefix must return Err, short/interrupted transfers must round-trip bit-exactly, serialized_size must equal bytes written, and verification decisions with reloaded keys/commitments/proofs must equal the originals on an honest and a tampered claim.",
+         "3.10", "EINTR on write may surface as Err (ark-serialize writes bool with Write::write): Ok => identical bytes is what is demanded; streaming-KZG types implement no serialization"),
+ "C17": ("simulated client requests outside each scheme's domain against honest surroundings, magnitudes at the boundary (supported+1, bound not enforced / below degree / above supported, hiding 0 / beyond key, missing RNG, wrong arity, mismatched labels, trim/setup beyond parameters) plus message-drop faults (commitment or evaluation never arrives); admission-table reference model; abort = crash of the party step",
+         "exploration",
+         "Every request kind of the admission table is issued in sampled sessions of every scheme it applies to; the party step must end in Err or abort and emit no commitment, proof or positive decision.",
+         "3.11", "only request kinds the statement lists are in the table; in-domain no-abort is the liveness oracle of C01/C06/C11 runs"),
  "C05": ("dual-verifier simulation: batch verifier replica vs per-point check replica on identical delivered messages, with false-claim subsets, challenge-aware cancelling errors across point groups, proof-list permutation/truncation/extension/duplication, and the verifier-RNG seam re-seeded 4 times",
          "exploration",
          "For every delivered (possibly faulted) batch the decision of batch_check must equal the AND of the individual checks under every verifier RNG stream; challenge-aware cross-group cancellation targets constant or reused batch randomizers.",
